@@ -83,7 +83,7 @@ def run_chunk(pid, tier, seed, start, stop, max_fail=20, per_run_cap=120):
                 for k, v in res.stats.items():
                     agg["stats"][k] = agg["stats"].get(k, 0) + v
                 if res.violations and len(agg["failures"]) < max_fail:
-                    agg["failures"].append({"index": i, "scenario": sc, "violations": [v.to_json() for v in res.violations], "digest": res.log.digest()})
+                    agg["failures"].append({"index": i, "chunk": [start, stop], "scenario": sc, "violations": [v.to_json() for v in res.violations], "digest": res.log.digest()})
                 elif res.violations:
                     agg["stats"]["failures_not_kept"] = agg["stats"].get("failures_not_kept", 0) + 1
                 if len(agg["samples"]) < 2 and res.nontrivial and i % 7 == start % 7:
@@ -210,6 +210,100 @@ def fails_same(prop, sc, oracle, key=None):
     return None
 
 
+# ---------------------------------------------------------------------------------------
+# the parent process never executes code under test: everything runs in a forked child, so that
+# every child starts from the same pristine interpreter state (what a module remembers from one
+# scenario to the next is itself something the checks look for: see find_prelude)
+# ---------------------------------------------------------------------------------------
+def in_child(fn, *args, timeout=900):
+    ctx = multiprocessing.get_context("fork")
+    with cf.ProcessPoolExecutor(max_workers=1, mp_context=ctx) as ex:
+        fut = ex.submit(fn, *args)
+        try:
+            return fut.result(timeout=timeout)
+        except HarnessError:
+            raise
+        except Exception as err:  # noqa
+            raise HarnessError(f"child running {fn.__name__} failed: {type(err).__name__}: {err}")
+
+
+def _child_fails_same(pid, sc, oracle, key):
+    got = fails_same(load_prop(pid), sc, oracle, key)
+    return None if got is None else (got[0].log.digest(), got[1].to_json())
+
+
+def _child_minimise(pid, sc, oracle, known, key):
+    prop = load_prop(pid)
+    sc_min, runs = minimise(prop, sc, oracle, known, pid, key)
+    got = fails_same(prop, sc_min, oracle, key)
+    return sc_min, runs, None if got is None else (got[0].log.digest(), got[1].to_json())
+
+
+def _child_replay_hits(path):
+    return replay(path, verbose=False)[0]
+
+
+def _child_sequence(pid, tier, seed, start, index, target):
+    """The concrete scenarios a worker executed in its chunk before (and including) the failing one."""
+    prop = load_prop(pid)
+    seq = []
+    for i in range(start, index + 1):
+        base = prop.generate(derive_rng(seed, pid, i), tier, i)
+        for sc in concrete_cases(prop, base, tier):
+            seq.append(sc)
+            if i == index and canon(sc) == target:
+                return seq
+    return None
+
+
+def _child_exec_seq(pid, scs, oracle, key):
+    prop = load_prop(pid)
+    for sc in scs[:-1]:
+        faulthandler.dump_traceback_later(120, exit=True)
+        try:
+            prop.execute(sc)
+        except Exception:  # noqa: the prelude is not judged
+            pass
+        finally:
+            faulthandler.cancel_dump_traceback_later()
+    return _child_fails_same(pid, scs[-1], oracle, key)
+
+
+def find_prelude(pid, tier, seed, fl, oracle, key, budget=90):
+    """The failing scenario passes when executed alone in a fresh process: it failed because of what the
+    code under test remembered from scenarios executed earlier in the same worker process.  Returns a
+    short list of earlier scenarios after which it fails again (each try in a fresh child)."""
+    start = fl["chunk"][0]
+    seq = in_child(_child_sequence, pid, tier, seed, start, fl["index"], canon(fl["scenario"]))
+    if seq is None:
+        raise HarnessError("could not regenerate the failing worker's scenario sequence")
+    if in_child(_child_exec_seq, pid, seq, oracle, key) is None:
+        raise HarnessError(f"scenario of run {fl['index']} fails neither alone nor after its worker's earlier scenarios: execution is not deterministic")
+    prelude, last = seq[:-1], seq[-1]
+    tries = 0
+    for j in range(len(prelude) - 1, -1, -1):  # one earlier scenario is usually enough: nearest first
+        if tries >= budget // 2:
+            break
+        tries += 1
+        if in_child(_child_exec_seq, pid, [prelude[j], last], oracle, key) is not None:
+            return [prelude[j]], tries
+    n = max(1, len(prelude) // 2)
+    while n >= 1 and tries < budget and len(prelude) > 1:  # otherwise drop blocks while it still fails
+        i = 0
+        shrunk = False
+        while i < len(prelude) and tries < budget:
+            cand = prelude[:i] + prelude[i + n:]
+            tries += 1
+            if cand and in_child(_child_exec_seq, pid, cand + [last], oracle, key) is not None:
+                prelude = cand
+                shrunk = True
+            else:
+                i += n
+        if not shrunk:
+            n //= 2
+    return prelude, tries
+
+
 def minimise(prop, sc, oracle, known, pid, key=None, budget_runs=300, budget_s=60):
     t0 = time.time()
     runs = 0
@@ -233,7 +327,7 @@ def minimise(prop, sc, oracle, known, pid, key=None, budget_runs=300, budget_s=6
     return cur, runs
 
 
-def write_replay(pid, sc, violation, digest, found=None):
+def write_replay(pid, sc, violation, digest, found=None, prelude=None):
     os.makedirs(REPLAYS, exist_ok=True)
     body = {
         "property": pid,
@@ -242,6 +336,7 @@ def write_replay(pid, sc, violation, digest, found=None):
         "message": violation["message"],
         "sig": violation["sig"],
         "scenario": sc,
+        **({"prelude": prelude, "prelude_note": "executed first, in order, in the same process (results ignored): the violation depends on what the code under test remembers from them"} if prelude else {}),
         "pythonhashseed": os.environ.get("PYTHONHASHSEED"),
         "engine_version": ENGINE_VERSION,
         "event_log_digest": digest,
@@ -258,6 +353,11 @@ def replay(path, verbose=True):
     with open(path) as f:
         body = json.load(f)
     prop = load_prop(body["property"])
+    for sc in body.get("prelude") or []:
+        try:
+            prop.execute(sc)
+        except Exception:  # noqa: the prelude is not judged
+            pass
     res = prop.execute(body["scenario"])
     hit = [v for v in res.violations if v.oracle == body["oracle"]]
     same_digest = res.log.digest() == body.get("event_log_digest")
@@ -296,7 +396,7 @@ def run_check(pid, tier, seed, workers=None, n_indices=None, wall_cap=None):
         if kf["property"] != pid:
             continue
         rp = os.path.join(VERIF, kf["replay"])
-        ok, _, _ = replay(rp, verbose=False)
+        ok = in_child(_child_replay_hits, rp)
         if ok:
             known_lines.append(f"KNOWN-FINDING: property={pid} {kf['what']}")
         else:
@@ -319,18 +419,33 @@ def run_check(pid, tier, seed, workers=None, n_indices=None, wall_cap=None):
     for key, fls in sorted(unknown.items())[:6]:
         fl = fls[0]
         v = fl["violations"][0]
-        sc_min, nruns = minimise(prop, fl["scenario"], v["oracle"], known, pid, key)
-        got = fails_same(prop, sc_min, v["oracle"], key)
-        if got is None:  # should not happen: execution is deterministic
-            raise HarnessError(f"minimised scenario for {v['oracle']} does not fail on re-execution")
-        res_min, v_min = got
         found = {"VERIF_SEED": seed, "tier": tier, "run_index": fl["index"], "note": "the scenario below is the minimised one; run_index regenerates the original"}
-        path = write_replay(pid, sc_min, v_min.to_json(), res_min.log.digest(), found)
+        prelude = None
+        alone = in_child(_child_fails_same, pid, fl["scenario"], v["oracle"], key)
+        if alone is not None:
+            sc_min, nruns, got = in_child(_child_minimise, pid, fl["scenario"], v["oracle"], known, key)
+            if got is None:  # minimisation itself was misled by state carried from one candidate to the next
+                sc_min, nruns, got = fl["scenario"], 0, alone
+        else:
+            # passes alone in a fresh process: it depends on what earlier scenarios left behind in the worker
+            prelude, nruns = find_prelude(pid, tier, seed, fl, v["oracle"], key)
+            sc_min = fl["scenario"]
+            got = in_child(_child_exec_seq, pid, prelude + [sc_min], v["oracle"], key)
+            if got is None:
+                raise HarnessError(f"scenario of run {fl['index']} with its prelude does not fail on re-execution")
+            found["note"] = "fails only after the prelude scenarios have run in the same process; neither is minimised"
+        digest, v_min = got
+        path = write_replay(pid, sc_min, v_min, digest, found, prelude)
         ok, out = confirm_in_fresh_process(path)
+        if not ok and prelude is None and sc_min is not fl["scenario"]:
+            path = write_replay(pid, fl["scenario"], alone[1], alone[0], found)
+            v_min = alone[1]
+            ok, out = confirm_in_fresh_process(path)
         if not ok:
             raise HarnessError(f"replay {path} did not reproduce in a fresh interpreter:\n{out[-2000:]}")
         violation_lines.append(f"VIOLATION property={pid} replay={path}")
-        reported.append({"oracle": v_min.oracle, "message": v_min.message, "sig": v_min.sig, "replay": path, "occurrences": len(fls), "minimise_runs": nruns})
+        reported.append({"oracle": v_min["oracle"], "message": v_min["message"], "sig": v_min["sig"], "replay": path, "occurrences": len(fls), "minimise_runs": nruns,
+                         **({"prelude_scenarios": len(prelude)} if prelude else {})})
         exit_code = 1
     if len(unknown) > 6:
         print(f"note: {len(unknown) - 6} further distinct violation signatures not minimised")
